@@ -38,6 +38,7 @@ def formulas_pool():
             '=IF(C3,{p},E5)',
             # whole columns: a cell that is set below the last row of the workbook belongs to them (observers that do not depend on
             # the number of trailing blank rows)
+            '=YEAR(A1)+DAY(B1)', '=DATEDIF(A1,B1,"D")', '=EDATE(A2,1)',
             '=SUM(A:A)', '=SUM(A:C)', '=COUNT(B:B)+MAX(A:B)', '=SUMIF(A:A,">1",B:B)', '=SUM(T!A:B)', '=SUMIFS(C:C,A:A,">0")+COUNTIFS(B:B,">2")']
 
 
@@ -292,7 +293,7 @@ def build_machine(rec, histories_out):
     from hypothesis.stateful import RuleBasedStateMachine, rule, initialize, precondition
 
     value = st.one_of(st.integers(-20, 99), st.integers(0, 9), st.sampled_from([2.5, 0.5, -1.25, 1250000.5]), st.booleans(),
-                      st.sampled_from(['abc', 'x y', '12', 'TRUE', "it's"]), st.just({'$dt': '2024-02-29T00:00:00'}))
+                      st.sampled_from(['abc', 'x y', '12', 'TRUE', "it's"]), st.just({'$dt': '2024-02-29T00:00:00'}), st.sampled_from([{'$d': '2024-02-29'}, {'$d': '2021-12-31'}]))
     addressing = st.sampled_from(['a1', 'a1', 'num', 'mixed', 'title-num'])
 
     class M(RuleBasedStateMachine):
